@@ -154,8 +154,9 @@ pub fn sampler() -> Vec<(String, String)> {
 
 /// (name, program text), deterministic order.
 pub fn load() -> Vec<(String, String)> {
-  let mut out = harvest_file("/repo/tests/interpreter.rs");
-  out.extend(harvest_file("/repo/tests/bytecode.rs"));
+  let repo = std::env::var("MECHSIM_REPO").unwrap_or_else(|_| "/repo".to_string());
+  let mut out = harvest_file(&format!("{}/tests/interpreter.rs", repo));
+  out.extend(harvest_file(&format!("{}/tests/bytecode.rs", repo)));
   out.extend(sampler());
   // de-duplicate by text, keep first
   let mut seen = std::collections::BTreeSet::new();
